@@ -230,8 +230,13 @@ func (c *Client) handlePacket(pktx pkts.Packet) error {
 		transactionx, _ := c.transactions.Get(pkt.MessageID())
 		transaction, ok := transactionx.(*brokerPublishQOS2Transaction)
 		if !ok {
-			c.log.Error("Unexpected transaction type %T for packet: %v", transactionx, pkt)
-			return nil
+			// The transaction is already finished => our PUBCOMP was lost
+			// and the gateway resends PUBREL. The message has already been
+			// delivered, we only must acknowledge the PUBREL again.
+			c.log.Debug("No transaction for packet, resending PUBCOMP: %v", pkt)
+			pubcomp := pkts1.NewPubcomp()
+			pubcomp.CopyMessageID(pkt)
+			return c.send(pubcomp)
 		}
 		transaction.Pubrel(pkt)
 		return nil
